@@ -233,6 +233,19 @@ def judge(family, case, rec):
         rec.exception_violation(key, family, case, "LGANM.sample(population=True) raised %s" % type(e).__name__, e)
         return
     rec.count("judged")
+    if case.get("W_as_list") is None and (p + len(touched)) % 3 == 0:
+        # history: the caller rescales the distribution he was given (his own object), asks the same model something else,
+        # then repeats the first question - the answer must not have changed
+        try:
+            dist.mean[...] = 1e6
+            dist.covariance[...] = -7.0
+            model.sample(population=True)
+            model.sample(population=True, do_interventions={0: (1.0, 2.0)})
+            dist = model.sample(population=True, **kw)
+            rec.count("history:repeat-after-caller-overwrote-result")
+        except Exception as e:
+            rec.exception_violation("C01:exception-on-repeat-" + type(e).__name__, family, case, "repeating the call raised", e)
+            return
     got_mean = np.asarray(dist.mean, dtype=float)
     got_cov = np.asarray(dist.covariance, dtype=float)
     if got_mean.shape != (p,) or got_cov.shape != (p, p):
